@@ -118,6 +118,7 @@ package funnel
 //verif:loop 0 invariant j < len(records) && len(positions) == len(records) && forall k in [0, j+1): positions[k] == records[k].Position
 
 //verif:func (*Batch).originalBatch(b) (ob)
+//verif:assumed because "the body is outside what is proved so far (nested appends over records with many fields / a search through a function-valued parameter); bounded stand-in: replay_drivers/funnel_batch_test.go checks the real function against a reference on every run of C08"
 //verif:requires BLens(b)
 //verif:ensures[lens] ob != nil && BLens(ob) && len(ob.records) <= len(b.records)
 //verif:ensures[identity] len(b.splitRecords) == 0 ==> ob == b
@@ -214,6 +215,7 @@ package funnel
 //verif:loop 0 hint lemma_cntf_next(heapof(b.recordStatuses, "Flag"), base(b.recordStatuses), off(b.recordStatuses), j + 1)
 
 //verif:func (*Batch).SetRecords(b, i, recs)
+//verif:assumed because "the body is outside what is proved so far (nested appends over records with many fields / a search through a function-valued parameter); bounded stand-in: replay_drivers/funnel_batch_test.go checks the real function against a reference on every run of C08"
 //verif:requires BInv(b) && 0 <= i && i + len(recs) <= active(b)
 //verif:ensures[shape] BInv(b) && len(b.records) == old(len(b.records)) && b.filterCount == old(b.filterCount) && nfilt(b) == old(nfilt(b))
 
@@ -270,6 +272,7 @@ package funnel
 //verif:loop 1 invariant i < to && to <= len(b.positions) && forall p in [i + 1, to): isnil(b.positions[p])
 
 //verif:func (*Batch).SplitRecord(b, i, recs)
+//verif:assumed because "the body is outside what is proved so far (nested appends over records with many fields / a search through a function-valued parameter); bounded stand-in: replay_drivers/funnel_batch_test.go checks the real function against a reference on every run of C08"
 //verif:requires BInv(b) && 0 <= i && i < active(b) && len(recs) >= 2
 //verif:ensures[shape] BInv(b) && len(b.records) == old(len(b.records)) + len(recs) - 1 && b.filterCount == old(b.filterCount) && nfilt(b) == old(nfilt(b))
 
@@ -303,6 +306,8 @@ package funnel
 // acked by this task only at the end of the chain or when nothing active is left.
 //verif:def firstTaskGuards() = result_of("(*TaskNode).IsFirst", 0) ==> succeeded("(*Worker).acquireProcessingLock") && called("(*Bool).Load@stop") && !result_of("(*Bool).Load@stop", 0) && since("(*Worker).acquireProcessingLock", "(*Bool).Load@stop") == 0 && count("$result.funnel.(*Worker).acquireProcessingLock.0") == 0
 //verif:func (*Worker).doTaskAttempt(w, ctx, taskNode, b, acker, retry) (err)
+//verif:unclaimed pre:(*Worker).subBatchByFlag because "the batch-shape precondition needs frame contracts of every downstream task (they run between two cuts); not built"
+//verif:unclaimed pre:(*Batch).Ack because "see above"
 //verif:call[ack-only-at-chain-end-or-all-filtered] ackNacker.Ack requires firstTaskGuards() && succeeded("Task.Do") && called("(*TaskNode).HasNext") && (!result_of("(*TaskNode).HasNext", 0) || !result_of("(*Batch).HasActiveRecords", 0))
 //verif:call[next-task-under-guards] (*Worker).doNextTask requires firstTaskGuards() && succeeded("Task.Do")
 //verif:call[nack-under-guards] ackNacker.Nack requires firstTaskGuards() && succeeded("Task.Do")
